@@ -12,7 +12,7 @@ TRUSTED_BASE = [
     "the window-name table, generator signatures and factory routing are regenerated from the live package into "
     "lean/SpecVerif/Generated/Registry.lean on every run; the alias/routing theorems are `decide`d about that table",
 ]
-PARTIAL = ["max <= 1 and centre = 1 for kaiser (monotonicity of I0), chebwin and taylor are evaluated by the oracle, not proved",
+PARTIAL = ["max <= 1 for chebwin and taylor (and centre = 1 for chebwin) are evaluated by the oracle, not proved; kaiser (<= 1, > 0, centre = 1, first sample 1/I0(beta)) and the taylor centre are proved for the model's 60-term I0 series",
            "flat-top: the published coefficients sum to 1.000000003, so its bound is sum a_i (float check: 1 + 1e-8)"]
 ASSUMPTIONS = ["flattop(mode='periodic') satisfies w[n] = w[N-n] (the periodic variant); the symmetric clause is read for the default mode",
                "Chebyshev windows: the centre-sample clause is evaluated for attenuation >= 45 dB and N <= 512 (the exhaustive range): a "
